@@ -18,7 +18,7 @@
 
 namespace {
 
-enum { OP_ACQ = 1, OP_CALLOC, OP_REALLOC, OP_REL, OP_SEND, OP_RECV, OP_CHECKPOINT, OP_YIELD, OP_REALLOC_NULL, OP_QUERY, OP_DUMP };
+enum { OP_ACQ = 1, OP_CALLOC, OP_REALLOC, OP_REL, OP_SEND, OP_RECV, OP_CHECKPOINT, OP_YIELD, OP_REALLOC_NULL, OP_QUERY, OP_DUMP, OP_BULK };
 static const int MAXW = 4;
 
 struct Block { uint8_t *p; size_t size; uint64_t tag; };
@@ -204,6 +204,20 @@ void run_worker(Ctx &c, int idx) {
                 for (auto &b : w.mailbox) w.own.push_back(b);
                 w.mailbox.clear();
                 break;
+            case OP_BULK: {
+                // many live allocations at once: pushes the tracer's address table past its initial size (1024 slots)
+                size_t n = (size_t)op.a;
+                for (size_t k = 0; k < n; k++) {
+                    size_t sz = 1 + (size_t)((op.b + (int64_t)k * 7) % 24);
+                    uint8_t *p = (uint8_t *)aws_mem_acquire(c.tr, sz);
+                    check_new(c, p, sz, "acquire (bulk)");
+                    w.own.push_back(place(c, p, sz));
+                }
+                c.ops_done += n;
+                sim::probe("bulk_allocation_phase");
+                if (c.live.size() > 1024) sim::probe("more_than_1024_live_allocations");
+                break;
+            }
             case OP_YIELD: sim::yield(); break;
             case OP_QUERY: (void)aws_mem_tracer_bytes(c.tr); (void)aws_mem_tracer_count(c.tr); break;
             case OP_DUMP: aws_mem_tracer_dump(c.tr); sim::probe("concurrent_dump"); break;
@@ -355,6 +369,15 @@ void gen(uint64_t seed, int tier, sim::Plan &p) {
         }
         if (nw > 1) { sim::Op rv; rv.thr = t; rv.kind = OP_RECV; p.ops.push_back(rv); }
     }
+    if (r.chance(tier ? 0.06 : 0.03)) {
+        // scale run: well over a thousand live allocations (the address table has to grow), then an exact check
+        int t = (int)r.range(1, nw);
+        sim::Op b; b.thr = t; b.kind = OP_BULK; b.a = r.range(1050, 1400); b.b = r.range(0, 100);
+        p.ops.insert(p.ops.begin() + (long)r.below(p.ops.size() + 1), b);
+        sim::Op cp; cp.thr = t; cp.kind = OP_CHECKPOINT; cp.a = 0;
+        p.ops.push_back(cp);
+        p.cfg["alloc_yield"] = 0;
+    }
     // "same size" reallocs: b == -1 means keep the current size; resolved at run time (see below)
     p.cfg["soft_budget"] = 200000;
     p.cfg["hard_budget"] = 3000000;
@@ -374,6 +397,7 @@ std::string op_text(const sim::Op &op) {
         case OP_YIELD: snprintf(b, sizeof b, "T%d: yield", op.thr); break;
         case OP_QUERY: snprintf(b, sizeof b, "T%d: aws_mem_tracer_bytes/count (concurrent, value not asserted)", op.thr); break;
         case OP_DUMP: snprintf(b, sizeof b, "T%d: aws_mem_tracer_dump (concurrent)", op.thr); break;
+        case OP_BULK: snprintf(b, sizeof b, "T%d: acquire %lld small blocks in a row and keep them", op.thr, (long long)op.a); break;
         default: snprintf(b, sizeof b, "?");
     }
     return b;
